@@ -197,6 +197,7 @@ func main() {
 			os.Exit(2)
 		}
 		prop := os.Args[2]
+		curProp = prop
 		_ = fs.Parse(os.Args[3:])
 		g, ok := generators[prop]
 		if !ok {
